@@ -50,9 +50,39 @@ def analyse(ctx):
                         q = mk(op, n)
             if q:
                 c.symtab_bool[name] = q
+        import copy as _copy
+        ctx_methods = S.methods('src/symbols.rs', 'Context')
+
+        def expand_context_calls(stmts_, depth=0):
+            """a statement `<context>.m(args);` where m is a unit method of Context is replaced by m's statements, with `self`
+            standing for <context> and the parameters for the arguments (a reset delegated to the context it resets)"""
+            out = []
+            for st_ in stmts_:
+                e_ = st_.get('expr') if st_['k'] == 's_expr' else None
+                m_ = ctx_methods.get(e_['method']) if e_ is not None and e_.get('k') == 'mcall' else None
+                if m_ is not None and depth < 3 and m_['output'].strip() == '' and 'contexts' in render(e_['recv']):
+                    names_ = [i_['pat']['name'] for i_ in m_['inputs'] if not i_.get('self') and i_['pat'].get('k') == 'p_ident']
+                    if len(names_) == len(e_['args']):
+                        sub_ = dict(zip(names_, e_['args']))
+
+                        def rw(n):
+                            if isinstance(n, dict):
+                                if n.get('k') == 'path' and n.get('path') == ['self']:
+                                    return _copy.deepcopy(e_['recv'])
+                                if n.get('k') == 'path' and len(n.get('path') or []) == 1 and n['path'][0] in sub_:
+                                    return _copy.deepcopy(sub_[n['path'][0]])
+                                return {k_: rw(v_) for k_, v_ in n.items()}
+                            if isinstance(n, list):
+                                return [rw(x_) for x_ in n]
+                            return n
+                        out.extend(expand_context_calls([rw(s2) for s2 in m_['body']['stmts']], depth + 1))
+                        continue
+                out.append(st_)
+            return out
         for name, f in S.methods('src/symbols.rs', 'SymbolTable').items():
             stmts = f['body']['stmts']
             if f['output'].strip() == '' and stmts:
+                stmts = expand_context_calls(stmts)
                 # a reset method: every statement cuts `self.contexts` / the scopes of the global context back to one entry,
                 # spelled truncate(1) or `while <more than one> { pop }`
                 alias = {}
@@ -72,20 +102,37 @@ def analyse(ctx):
                     if r in ('self.contexts[0].symbols[0]',):
                         return 'definitions'
                     return None
+                def cut_to(e_):
+                    """the length a cut-back call leaves: `truncate(n)`, `drain(n..)`, `split_off(n)` -> the expression n"""
+                    if e_.get('k') != 'mcall' or not e_['args']:
+                        return None
+                    a0 = e_['args'][0]
+                    if e_['method'] in ('truncate', 'split_off'):
+                        return a0
+                    if e_['method'] == 'drain' and a0.get('k') == 'range' and a0.get('start') is not None and a0.get('end') is None:
+                        return a0['start']
+                    return None
                 for st in stmts:
                     if st['k'] == 's_let' and st.get('init') is not None and st['pat'].get('k') == 'p_ident':
-                        alias[st['pat']['name']] = render(st['init']).replace(' ', '').replace('&mut', '').replace('&', '')
+                        full_ = render(st['init']).replace(' ', '').replace('&mut', '').replace('&', '')
+                        for a_, f_ in alias.items():
+                            if full_ == a_ or full_.startswith(a_ + '.') or full_.startswith(a_ + '['):
+                                full_ = f_ + full_[len(a_):]
+                        alias[st['pat']['name']] = full_
                         continue
                     e = st.get('expr') if st['k'] == 's_expr' else None
                     if e is None:
                         continue
-                    if e.get('k') == 'mcall' and e['method'] == 'truncate' and e['args'] and e['args'][0].get('value') == 1 and target(e['recv']) in ('contexts', 'scopes'):
+                    # `if x.len() > n { x.drain(n..); }`: the guard only keeps the cut from panicking on a shorter list
+                    if e.get('k') == 'if' and not e.get('else') and len(e['then']['stmts']) == 1 and e['then']['stmts'][0]['k'] == 's_expr':
+                        e = e['then']['stmts'][0]['expr']
+                    n_ = cut_to(e)
+                    if n_ is not None and n_.get('value') == 1 and target(e['recv']) in ('contexts', 'scopes'):
                         what.add(target(e['recv']))
                         continue
                     # the outermost scope of the global context is cut back to a length handed in by the caller
                     params_ = [i_['pat']['name'] for i_ in f['inputs'] if not i_.get('self') and i_['pat'].get('k') == 'p_ident']
-                    if e.get('k') == 'mcall' and e['method'] == 'truncate' and e['args'] and path_of(e['args'][0]) and path_of(e['args'][0])[0] in params_ \
-                            and target(e['recv']) == 'definitions':
+                    if n_ is not None and path_of(n_) and path_of(n_)[0] in params_ and target(e['recv']) == 'definitions':
                         what.add('definitions')
                         continue
                     if e.get('k') == 'while':
